@@ -251,6 +251,10 @@ def gen_case(tape, batch):
             if params and tape.bool(0.06, "defname"):
                 params[tape.choose(len(params), "which-param")]["tag"] = "defname"
                 pr["defname_instead_of_declname"] = 1
+            if params and tape.bool(0.04, "unnamed-param"):
+                # Doxygen does not always give a <param> a name: such a member can match nothing
+                params[tape.choose(len(params), "which-param")]["tag"] = None
+                pr["param_without_name"] = 1
             if any(p["defval"] is not None for p in params):
                 pr["optional_param_member"] = 1
             if tape.bool(0.08, "extra-optional-param"):
@@ -511,7 +515,7 @@ def judge(case, calls, lits, w):
             for m in entry["members"]:
                 if m["name"] != c["method"] or m["kind"] != "function":
                     continue
-                names = [p["name"] for p in m["params"]]
+                names = [p["name"] if p.get("tag", "declname") else None for p in m["params"]]
                 nreq = len([p for p in m["params"] if p.get("defval") is None])
                 if names == c["args"]:
                     exact.append(m)
@@ -529,7 +533,7 @@ def judge(case, calls, lits, w):
                                        (c["cls"], c["method"], ",".join(c["args"]), doc[:80])})
             continue
         relaxed = key_faulted[key] and nkey[key] > 1
-        if nkey[key] > len(exact) >= 1:
+        if nkey[key] > len(cands) >= 1:
             # more bindings with this name list than documented members: which overload is the
             # undocumented one cannot be told, so any of them may be empty
             may_be_empty = True
